@@ -9,8 +9,13 @@ Sub-checks
              through Glommer().glom(target, spec, scope=...) as well (same expectations);
              a scope name d bound to a fresh dict, written through A.d[<T expr / Spec over the step's target>] and
              read back (the index of an A path is an argument like any other: it is evaluated on the target)
-  matchdict  Match-dict keys that bind (Regex named groups, A.k) with several entries, optionally below
-             an outer binding of the same name
+             Iter(sub) steps whose sub-spec binds, consumed by the next step of the chain - completely (list, .all()) or only in
+             part (next, First(), .first(), a shorter zip, islice; a .limit / .slice / .takewhile stage that stops pulling) -
+             followed by readers: constructed chains ('lazychain') and random placements.  The reference evaluates the items in a
+             plain generator under the itertools composition and the plain-Python consumer
+  matchdict  Match-dict keys that bind (Regex named groups, A.k, S(k=T); A.k nested in a compound key as the control), as they
+             stand or marked Required(<binder>), with several entries, optionally below an outer binding of the same name
+             (an earlier chain step or the caller's scope=); the reader directly in the value or one level down
   ref        Ref definitions / uses: nearest enclosing definition, recursion over trees, no leak
              from sibling definitions
   specchain  a Spec(x, scope={..}) step or a Ref(name, spec) definition step of a tuple / Pipe followed by readers (S.name,
@@ -22,10 +27,13 @@ Sub-checks
 
 Oracle: refscope - a static environment calculus transcribed from the statement.
 """
+import itertools
+
 from hypothesis import strategies as st
 
 import glom
 from glom import Iter
+from glom.streaming import First
 from glom import (T, S, A, Val, Coalesce, Pipe, Spec, Vars, Ref, Match, Auto, Switch, And, Or, M, Regex, GlomError, Invoke)
 
 from ..runner import Sub, Mismatch, HarnessBug
@@ -35,7 +43,7 @@ PROPERTY = 'C07'
 RULE = ('scope: trees of depth <= 4 over chains and branching containers with binders/readers of the names k, j (plus a Vars '
         'object v and the globals namespace) at every position; failing leaves make Coalesce/Or/Switch pass over branches. '
         'A third of the programs also run through Glommer().glom(.., scope=..); chains that bind d to a fresh dict, write '
-        'A.d[<T expr / Spec over a known target>] and read the dict back. '
+        'A.d[<T expr / Spec over a known target>] and read the dict back; chains (outer binding, Iter(<binder>) consumed in part by the next step, readers). '
         'Non-trivial = >= 1 binder and >= 1 reader in different subtrees (visibility is decided by a rule, not adjacency).')
 ASSUMPTIONS = [
     'refscope: a chain step sees the bindings made *directly* by earlier steps of the same chain; nested specs see their '
@@ -45,7 +53,13 @@ ASSUMPTIONS = [
     'steps is asserted by sub specchain (must be invisible: a later step is neither in the Spec\'s subtree nor enclosed by the definition)',
     'specchain: bodies of Ref definitions hold no scope readers that a use site reaches, so the environment of the definition and of the '
     'use cannot be told apart; Ref(name) without an enclosing definition is an error that no Coalesce inside the spec skips',
-    'binders nested inside a compound Switch/Match key are invisible to the value',
+    'binders nested inside a compound Switch/Match key are invisible to the value; Required(k) is not a compound key but the key k '
+    'with a marker (docstring: "marks that a key ... should raise MatchError if the key in the target does not match"): the value '
+    'sees the bindings of k, and a pattern whose Required entry takes no item fails',
+    'the sub-spec of an Iter is nested in the Iter step: its bindings are invisible to the later steps however much of the stream '
+    'the next step pulls; items are evaluated when pulled (side effects on globals / Vars of the items never pulled do not happen): '
+    'Iter.limit / .slice = itertools.islice, .takewhile = itertools.takewhile, First() / .first() = the first truthy item or None '
+    '(their docstrings)',
     'Glommer().glom(target, spec, scope=m) is held to the expectations of glom(target, spec, scope=m) (Glommer docstring: the same '
     'function with a registry of its own); neither m nor the Glommer\'s own scope may change',
     'A.d[x] with d bound to a dict stores the step\'s target under the VALUE of x evaluated on that target when x is a T expression / '
@@ -113,7 +127,8 @@ def gen_node(draw, d, is_list, counter):
     S_ = st.sampled_from
     leafs = ['bind', 'abind', 'read', 'read', 'readitem', 'gbind', 'gread', 'id', 'vbind', 'vset', 'vread', 'const',
              'dnew', 'dset', 'dread']
-    comps = ['tuple', 'tuple', 'pipe', 'dict', 'coal', 'or', 'and', 'switch', 'specscope', 'varschain', 'lazy', 'dictchain']
+    comps = ['tuple', 'tuple', 'pipe', 'dict', 'coal', 'or', 'and', 'switch', 'specscope', 'varschain', 'lazy', 'dictchain',
+             'lazychain']
     if is_list:
         comps.append('list')
     kind = draw(S_(leafs if d <= 0 else leafs + comps + comps))
@@ -145,7 +160,44 @@ def gen_node(draw, d, is_list, counter):
         return ['list', gen_node(draw, d - 1, False, counter)]
     if kind == 'lazy':
         # three chain steps: Val(items), Iter(sub), list -- the sub-spec runs while the LATER step `list` consumes it
-        return ['lazy', gen_node(draw, d - 1, False, counter), draw(S_(['iter', 'iter', 'map', 'all']))]
+        return ['lazy', gen_node(draw, d - 1, False, counter), gen_lazy_how(draw, False)]
+    if kind == 'lazychain':
+        # CONSTRUCTED: [outer binding of the name,] Iter(<sub-spec that binds the name>) consumed by the next step WITHOUT draining
+        # the source, then readers of the name in the later steps of the same chain (directly, and nested in a dict step)
+        steps = []
+        if draw(st.integers(0, 2)) > 0:
+            counter[0] += 1
+            steps.append(['bind', name, 'v%d' % counter[0]])
+        bk = draw(st.integers(0, 5))
+        va = None
+        if bk <= 1:
+            sub = ['abind', name]
+        elif bk <= 3:
+            counter[0] += 1
+            sub = ['bind', name, 'v%d' % counter[0]]
+        elif bk == 4:
+            # a Vars object per item; outside, a Vars of the chain that holds a value under the attribute read afterwards
+            sub = ['vbind']
+            va = draw(S_(['x', 'y']))
+            counter[0] += 1
+            steps = [['vbind'], ['const', 'c%d' % counter[0]], ['vset', va]]
+        else:
+            sub = gen_node(draw, d - 1, False, counter)
+        steps.append(['lazy', sub, gen_lazy_how(draw, True)])
+        between = draw(S_(['none', 'none', 'id', 'node']))
+        if between == 'id':
+            steps.append(['id'])
+        elif between == 'node':
+            steps.append(gen_node(draw, d - 1, False, counter))
+        rd = ['vread', va] if va is not None else [draw(S_(['read', 'read', 'readitem'])), name]
+        form = draw(S_(['step', 'dict', 'dict', 'nested-tuple']))
+        if form == 'step':
+            steps.append(rd)
+        elif form == 'dict':
+            steps.append(['dict', [rd, ['id'], ['read', [n for n in NAMES if n != name][0]]]])
+        else:
+            steps.append(['tuple', [['id'], ['dict', [rd, ['id']]]]])
+        return [draw(S_(['tuple', 'tuple', 'pipe'])), steps]
     if kind == 'switch':
         cases = []
         for _ in range(draw(st.integers(1, 3))):
@@ -201,6 +253,24 @@ def gen_node(draw, d, is_list, counter):
         counter[0] += 1
         return ['specscope', {name: 'v%d' % counter[0]}, gen_node(draw, d - 1, is_list, counter)]
     raise ValueError(kind)
+
+
+def gen_lazy_how(draw, partial_only):
+    """how an Iter(sub) step is consumed.  Old forms ('iter', 'map', 'all'): the whole stream.  New form
+    '<source>|<stage>|<consumer>|<wrap>': a stage of the Iter and / or the consumer stop before the source is spent."""
+    S_ = st.sampled_from
+    if not partial_only and draw(st.integers(0, 2)) < 2:
+        return draw(S_(['iter', 'iter', 'map', 'all']))
+    src = draw(S_(['iter', 'iter', 'iter', 'map']))
+    stage = draw(S_(['none', 'none', 'none', 'limit1', 'slice1', 'limit2', 'tw-never', 'tw-first']))
+    if stage == 'none':
+        cons = draw(S_(['next', 'next', 'first', 'zip1', 'islice1', '.first']))
+    elif stage in LAZY_STAGES_NONEMPTY:
+        cons = draw(S_(['list', 'list', 'next', 'first', 'zip1', '.first']))
+    else:
+        cons = draw(S_(['list', 'list', 'first', 'zip1', '.first']))        # (next() of an empty stream is no glom matter)
+    wrap = 'plain' if cons == '.first' else draw(S_(['plain', 'plain', 'plain', 'tuple', 'dict']))
+    return '|'.join([src, stage, cons, wrap])
 
 
 def gen(draw):
@@ -275,11 +345,78 @@ def build(r, in_chain=False):
 LAZY_ITEMS = ['i1', 'i2']
 
 
+def lazy_never(v):
+    return False
+
+
+def lazy_is_first(v):
+    return v == LAZY_ITEMS[0]
+
+
+def lazy_zip1(it):
+    """zip with a shorter iterable: one item is pulled"""
+    return [b for _, b in zip(['z'], it)]
+
+
+def lazy_islice1(it):
+    return list(itertools.islice(it, 1))
+
+
+def first_truthy(it):
+    """First() / Iter.first() with the default key: 'the first element which matches key' = the first truthy one, else None"""
+    for v in it:
+        if v:
+            return v
+    return None
+
+
+# stage name -> (applied to an Iter spec, the itertools composition it is documented as)
+LAZY_STAGES = {
+    'none': (lambda it: it, lambda g: g),
+    'limit1': (lambda it: it.limit(1), lambda g: itertools.islice(g, 1)),
+    'limit2': (lambda it: it.limit(2), lambda g: itertools.islice(g, 2)),       # (all items, but the end of the source is never seen)
+    'slice1': (lambda it: it.slice(1), lambda g: itertools.islice(g, 1)),
+    'tw-never': (lambda it: it.takewhile(lazy_never), lambda g: itertools.takewhile(lazy_never, g)),
+    'tw-first': (lambda it: it.takewhile(lazy_is_first), lambda g: itertools.takewhile(lazy_is_first, g)),
+}
+LAZY_STAGES_NONEMPTY = ('limit1', 'limit2', 'slice1')
+# consumer name -> (the step that follows the Iter, what it computes from a plain iterator)
+LAZY_CONSUMERS = {
+    'list': (lambda: list, list),
+    'next': (lambda: next, next),
+    'first': (lambda: First(), first_truthy),
+    'zip1': (lambda: lazy_zip1, lazy_zip1),
+    'islice1': (lambda: lazy_islice1, lazy_islice1),
+}
+
+
+def lazy_how(how):
+    """-> (source, stage, consumer, wrap, consumed in part)"""
+    if how in ('iter', 'map'):
+        return how, 'none', 'list', 'plain', False
+    if how == 'all':
+        return 'iter', 'none', '.all', 'plain', False
+    parts = how.split('|')
+    if (len(parts) != 4 or parts[0] not in ('iter', 'map') or parts[1] not in LAZY_STAGES
+            or (parts[2] not in LAZY_CONSUMERS and parts[2] != '.first') or parts[3] not in ('plain', 'tuple', 'dict')):
+        raise HarnessBug('C07: lazy form %r' % (how,))
+    return parts[0], parts[1], parts[2], parts[3], True
+
+
 def lazy_steps(r):
     sub = build(r[1])
-    if r[2] == 'all':
-        return [Val(list(LAZY_ITEMS)), Iter(sub).all()]
-    return [Val(list(LAZY_ITEMS)), Iter(sub) if r[2] == 'iter' else Iter().map(sub), list]
+    src, stage, cons, wrap, _ = lazy_how(r[2])
+    it = LAZY_STAGES[stage][0](Iter(sub) if src == 'iter' else Iter().map(sub))
+    if cons == '.all':
+        return [Val(list(LAZY_ITEMS)), it.all()]
+    if cons == '.first':
+        return [Val(list(LAZY_ITEMS)), it.first()]
+    step = LAZY_CONSUMERS[cons][0]()
+    if wrap == 'tuple':
+        step = (T, step)
+    elif wrap == 'dict':
+        step = {'c': step}
+    return [Val(list(LAZY_ITEMS)), it, step]
 
 
 def chain_steps(rs):
@@ -363,8 +500,29 @@ def ev(r, target, env, state):
                 e.update(db)
         return cur, {}
     if k == 'lazy':
-        # nested in the chain: sees the environment of the chain at the Iter step, binds nothing outside itself
-        return [ev(r[1], item, env, state)[0] for item in LAZY_ITEMS], {}
+        # nested in the chain: sees the environment of the chain at the Iter step, binds nothing outside itself - however much
+        # of the stream the next step pulls.  The items are evaluated when they are pulled: a plain generator under the
+        # itertools composition of the stage and the plain-Python consumer.
+        src, stage, cons, wrap, partial = lazy_how(r[2])
+        last = [{}]
+
+        def stream():
+            for item in LAZY_ITEMS:
+                v, last[0] = ev(r[1], item, env, state)
+                yield v
+        g = stream()
+        consume = {'.all': list, '.first': first_truthy}.get(cons) or LAZY_CONSUMERS[cons][1]
+        try:
+            value = consume(LAZY_STAGES[stage][1](g))
+        except StopIteration:
+            raise HarnessBug('C07 generator: %r calls next() on an empty stream' % (r[2],))
+        finally:
+            g.close()
+        if wrap == 'dict':
+            value = {'c': value}
+        # (state['leaky'] is set for the distribution label only: the model in which the item evaluated last hands its
+        # bindings to the later steps of the chain)
+        return value, (dict(last[0]) if partial and state.get('leaky') else {})
     if k == 'dict':
         return dict(('f%d' % i, ev(x, target, env, state)[0]) for i, x in enumerate(r[1])), {}
     if k == 'list':
@@ -421,6 +579,14 @@ def leaves(r, acc):
     return acc
 
 
+def has_partial_lazy(r):
+    if isinstance(r, list):
+        if len(r) == 3 and r[0] == 'lazy' and isinstance(r[2], str) and '|' in r[2]:
+            return True
+        return any(has_partial_lazy(x) for x in r)
+    return False
+
+
 def canon(v):
     if isinstance(v, RVars):
         return '<vars>'
@@ -440,6 +606,18 @@ def check(recipe, ctx):
     ctx.label('caller-scope' if recipe['caller'] else 'no-caller-scope')
     if "'lazy'" in repr(tree):
         ctx.label('lazy-iter')
+        if has_partial_lazy(tree):
+            ctx.label('lazy-partial')
+            # would a binding that escapes from the item evaluated last be SEEN by this program?  (the statement's model against
+            # the model in which it escapes; used for the label only)
+            outs = []
+            for leaky in (False, True):
+                try:
+                    outs.append(canon(ev(tree, [1, 2], dict(recipe['caller'] or {}), {'glob': {}, 'leaky': leaky})[0]))
+                except Fail:
+                    outs.append(Fail)
+            if outs[0] != outs[1]:
+                ctx.label('lazy-partial-leak-would-show')
     spec = build(tree)
     where = 'spec=%r caller scope=%r' % (spec, recipe['caller'])
     vias = ['glom']
@@ -520,64 +698,110 @@ def check(recipe, ctx):
 # ---------------------------------------------------------------------------
 # Match-dict key bindings
 
+# forms of the binder key:  (the key spec, does it take the item with this key, does the VALUE see k = the key)
+#   regex / direct / sbind are binders themselves ("a Match-dict key passes its bindings to its own value spec");
+#   in 'abind' the binder is nested in a compound key: invisible to the value
+MD_BINDERS = {
+    'regex': (lambda keys: Regex('(?P<k>x.*)'), lambda key, keys: key.startswith('x'), True),
+    'direct': (lambda keys: A.k, lambda key, keys: True, True),
+    'sbind': (lambda keys: S(k=T), lambda key, keys: True, True),
+    'abind': (lambda keys: And(M == keys[0], A.k), lambda key, keys: key == keys[0], False),
+}
+
+
 def gen_matchdict(draw):
     keys = draw(st.lists(st.sampled_from(['x1', 'x2', 'y1', 'zz', 'x3']), min_size=1, max_size=4, unique=True))
     return {'keys': keys, 'outer': draw(st.sampled_from([None, 'outer-k'])),
-            'first_key': draw(st.sampled_from(['regex', 'regex', 'abind'])),
+            'first_key': draw(st.sampled_from(['regex', 'regex', 'abind', 'direct', 'sbind'])),
             'optional': draw(st.booleans()),
             # entries of the pattern whose key is a plain constant (they bind nothing), listed before or after the binder
             # entry; the target lists its items in an order of its own
             'const': draw(st.lists(st.sampled_from(keys), max_size=2, unique=True)),
             'const_pos': 'before',       # (keys are tried in the order the pattern lists them; a constant after the binder would never match)
-            'target_order': draw(st.permutations(keys))}
+            'target_order': draw(st.permutations(keys)),
+            # the binder key as it stands, or marked Required(<binder>): the marker says that some item must fit the key; the key
+            # - and what passes its bindings to the value - is the wrapped spec
+            'wrap': draw(st.sampled_from(['plain', 'required', 'required'])),
+            # where the outer binding of the same name comes from: an earlier step of the chain, or the caller's scope=
+            'outer_via': draw(st.sampled_from(['step', 'step', 'caller'])),
+            # the reader in the value: directly in the value's dict, or one level further down
+            'reader': draw(st.sampled_from(['flat', 'flat', 'nested']))}
 
 
 def check_matchdict(recipe, ctx):
-    from glom import Optional
+    from glom import Optional, Required
     keys = recipe['keys']
     target = dict((k, keys.index(k)) for k in recipe.get('target_order', keys))
     const = recipe.get('const', [])
-    reader = Auto({'saw': Coalesce(S.k, default=UNB), 'val': T})
-    if recipe['first_key'] == 'regex':
-        binder = Regex('(?P<k>x.*)')
-        binds = lambda key: key.startswith('x')
-        bound = lambda key: key
-    else:
-        binder = And(M == keys[0], A.k)           # binder nested in a compound key: invisible to the value
-        binds = lambda key: False
-        bound = lambda key: None
+    wrap = recipe.get('wrap', 'plain')
+    nested = recipe.get('reader', 'flat') == 'nested'
+
+    def value_spec():
+        rd = Coalesce(S.k, default=UNB)
+        return Auto({'saw': (T, {'r': rd}, 'r') if nested else rd, 'val': T})
+    mk, takes, visible = MD_BINDERS[recipe['first_key']]
+    binder = mk(keys)
     pattern = {}
     if recipe.get('const_pos') == 'before':
         for c in const:
-            pattern[c] = Auto({'saw': Coalesce(S.k, default=UNB), 'val': T})
-    pattern[binder] = reader
-    pattern[str] = Auto({'saw': Coalesce(S.k, default=UNB), 'val': T})
+            pattern[c] = value_spec()
+    if wrap == 'required':
+        pattern[Required(binder)] = value_spec()
+    elif wrap == 'plain':
+        pattern[binder] = value_spec()
+    else:
+        raise HarnessBug('C07 matchdict: wrap %r' % (wrap,))
+    pattern[str] = value_spec()
     if recipe.get('const_pos') == 'after':
         for c in const:
-            pattern[c] = Auto({'saw': Coalesce(S.k, default=UNB), 'val': T})
+            pattern[c] = value_spec()
     if recipe['optional']:
         pattern[Optional('opt', default=Auto(Coalesce(S.k, default=UNB)))] = object
     spec = Match(pattern)
+    caller = None
     if recipe['outer']:
-        spec = (S(k=Val(recipe['outer'])), spec)
+        if recipe.get('outer_via', 'step') == 'caller':
+            caller = {'k': recipe['outer']}
+        else:
+            spec = (S(k=Val(recipe['outer'])), spec)
     outer = recipe['outer'] or UNB
     exp = {}
+    taken = 0
     for key in keys:
         # (an item whose key equals a constant key of the pattern is matched by that entry: constants go first)
-        exp[key] = {'saw': bound(key) if binds(key) and key not in const else outer, 'val': target[key]}
+        by_binder = key not in const and takes(key, keys)
+        taken += by_binder
+        exp[key] = {'saw': key if by_binder and visible else outer, 'val': target[key]}
     if recipe['optional']:
         exp['opt'] = outer
+    # Required(key): "should raise MatchError if the key in the target does not match" - no item fits the marked entry
+    exp = ('ok', exp) if taken or wrap != 'required' else ('fail',)
     ctx.nontrivial(len(keys) >= 2)
     ctx.label('entries-%d' % len(keys), 'outer' if recipe['outer'] else 'no-outer')
     if const and len(keys) > len(const):
         ctx.label('constant-key-beside-binder')
-    where = 'glom(%r, %r)' % (target, spec)
+    if visible and taken:
+        ctx.label('value-reads-key-binding', 'binder-' + recipe['first_key'])
+        if wrap == 'required':
+            ctx.label('required-binder-key-read')
+        if recipe['outer']:
+            ctx.label('key-binding-shadows-outer')
+    if exp[0] == 'fail':
+        ctx.label('required-key-unmatched')
+    where = 'glom(%r, %r%s)' % (target, spec, ', scope=%r' % (caller,) if caller else '')
+    given = dict(caller) if caller is not None else None
     try:
-        got = glom.glom(target, spec)
+        got = ('ok', glom.glom(target, spec, **({'scope': given} if given is not None else {})))
+    except GlomError as e:
+        got = ('fail',)
+        if exp[0] == 'ok':
+            raise Mismatch('unexpected-exception', '%s: %s: %s' % (where, type(e).__name__, str(e).splitlines()[-1][:200]))
     except Exception as e:
         raise Mismatch('unexpected-exception', '%s: %s: %s' % (where, type(e).__name__, str(e).splitlines()[-1][:200]))
     if got != exp:
         raise Mismatch('key-binding-visibility', '%s: expected %r, got %r' % (where, exp, got))
+    if given is not None and (given != caller or list(given) != list(caller)):
+        raise Mismatch('caller-scope-modified', '%s: caller mapping is now %r' % (where, given))
     ctx.outcome([keys, got])
 
 
@@ -918,8 +1142,10 @@ CLASSIFIERS = {'F93-spec-scope-chains': is_f93}
 
 SUBS = [
     Sub('scope', check, gen=gen, quick=5000, thorough=20000, floors={'caller-scope': 0.3, 'exp-ok': 0.5, 'lazy-iter': 0.05,
-                'glommer-with-scope': 0.07, 'a-index-computed-read-back': 0.05}),
-    Sub('matchdict', check_matchdict, gen=gen_matchdict, quick=800, thorough=3000),
+                'glommer-with-scope': 0.07, 'a-index-computed-read-back': 0.05,
+                'lazy-partial': 0.08, 'lazy-partial-leak-would-show': 0.04}),
+    Sub('matchdict', check_matchdict, gen=gen_matchdict, quick=800, thorough=3000,
+        floors={'value-reads-key-binding': 0.3, 'required-binder-key-read': 0.15, 'key-binding-shadows-outer': 0.09}),
     Sub('ref', check_ref, gen=gen_ref, quick=600, thorough=2500),
     Sub('specchain', check_specchain, gen=gen_specchain, quick=800, thorough=3000,
         # (shares of the cases that PASS: while F93 is open most step cases are known-finding hits and not counted in the
